@@ -158,6 +158,8 @@ type Case struct {
 	Trust string `json:"trust,omitempty"`
 	// Noise: SP options that concern only what it sends (spkit.Noise)
 	Noise uint64 `json:"noise,omitempty"`
+	// SPKey: what key material the SP holds (see curSPKey); inbound kinds only
+	SPKey string `json:"sp_key,omitempty"`
 
 	// encplain: arbitrary plaintext inside a well-formed EncryptedAssertion addressed to the SP
 	Plain     string `json:"plain,omitempty"`
@@ -288,11 +290,29 @@ func idpTrusted() bool {
 	return false
 }
 
+// curSPKey: "" (RSA key and certificate) | nokey | nocert | neither | ec - an SP need not hold a key at all, and
+// may hold one that cannot decrypt; whatever it receives, it answers with an error, not a panic.
+var curSPKey string
+
 func newSP() *saml.ServiceProvider {
 	sp := spkit.NewSP(spkit.Config{Trust: curTrust})
 	spkit.Noise(sp, curNoise)
+	switch curSPKey {
+	case "nokey":
+		sp.Key = nil
+	case "nocert":
+		sp.Certificate = nil
+		sp.SignatureMethod = "" // asking an SP without certificate to sign is a configuration error, outside the domain
+	case "neither":
+		sp.Key, sp.Certificate = nil, nil
+		sp.SignatureMethod = ""
+	case "ec":
+		sp.Key, sp.Certificate = fix.Get("spec").Key, fix.Get("spec").Cert
+	}
 	return sp
 }
+
+var spKeys = []string{"nokey", "nocert", "neither", "ec"}
 
 type discard struct{}
 
@@ -1111,7 +1131,7 @@ func checkArtifact(c Case) pbt.Result {
 				return ok200(good(issued))
 			}
 		})
-		if fault == "good" && !o.Accepted() && idpTrusted() {
+		if fault == "good" && !o.Accepted() && idpTrusted() && curSPKey == "" {
 			res.Err = fmt.Sprintf("harness sanity: a correct artifact response was rejected: %s", o.Describe())
 			return res
 		}
@@ -1138,6 +1158,14 @@ func check(c Case) pbt.Result {
 		kindCount[k]++
 	}()
 	curNoise = c.Noise
+	curSPKey = ""
+	if c.Kind == "resign" || c.Kind == "encplain" || c.Kind == "bytes" || c.Kind == "artifact" {
+		for _, k := range spKeys {
+			if k == c.SPKey {
+				curSPKey = k
+			}
+		}
+	}
 	curTrust = "meta1"
 	if c.Trust != "" {
 		ok := false
@@ -1152,6 +1180,9 @@ func check(c Case) pbt.Result {
 	res := check1(c)
 	if c.Trust != "" && !res.Skip {
 		res.Classes = append(res.Classes, "sp-trust:"+c.Trust)
+	}
+	if curSPKey != "" && !res.Skip {
+		res.Classes = append(res.Classes, "sp-key:"+curSPKey)
 	}
 	return res
 }
@@ -1274,6 +1305,9 @@ func gen(t *rapid.T) Case {
 	if c.Trust != "" && rapid.Bool().Draw(t, "noise?") {
 		c.Noise = rapid.Uint64Range(1, 1023).Draw(t, "noise")
 	}
+	if (c.Kind == "resign" || c.Kind == "encplain" || c.Kind == "bytes" || c.Kind == "artifact") && rapid.IntRange(0, 3).Draw(t, "spkey?") == 0 {
+		c.SPKey = rapid.SampledFrom(spKeys).Draw(t, "spkey")
+	}
 	return c
 }
 
@@ -1379,6 +1413,27 @@ func gen1(t *rapid.T) Case {
 }
 
 // ---------------------------------------------------------------- exhaustive parts
+
+// enumSPKeys: every kind of key material the SP may hold x plain / encrypted assertions in every signing layout and
+// entry point, degenerate encrypted plaintexts, and every resolver behaviour of the artifact binding.
+func enumSPKeys(_ string, emit func(Case)) {
+	for _, k := range spKeys {
+		for _, layout := range []string{"resp", "assert", "both"} {
+			for _, entry := range []string{"xml", "post", "artifact"} {
+				for _, enc := range []bool{false, true} {
+					emit(Case{Kind: "resign", Layout: layout, Entry: entry, Encrypt: enc, SPKey: k})
+				}
+			}
+		}
+		for _, p := range degeneratePlain {
+			emit(Case{Kind: "encplain", Plain: p, SPKey: k})
+		}
+		for _, f := range faults {
+			emit(Case{Kind: "artifact", Faults: []string{f}, SPKey: k})
+			emit(Case{Kind: "artifact", Faults: []string{f}, SPKey: k, Noise: 2})
+		}
+	}
+}
 
 // enumSigSurgery: every part of the signature of a signed Response / Assertion / ArtifactResponse x every
 // edit mode, under a metadata, a pinned and a fingerprint trust configuration.
@@ -1545,7 +1600,7 @@ func enumDegenerate(_ string, emit func(Case)) {
 
 var prop = &pbt.Prop[Case]{
 	ID: "C09",
-	Rule: "cases: (resign) a maximal valid Response with every optional element/attribute, any subset of its parts removed (every subset of size <= 2 enumerated), then validly re-signed with the trusted IdP key in each layout (Response / Assertion / both / ArtifactResponse), optionally encrypted to the SP, through ParseXMLResponse / ParseResponse(POST) / ParseXMLArtifactResponse, followed by 0-3 edits of the parts of the ds:Signature elements after signing (remove / empty / blank / duplicate / replace text; every part x every mode enumerated) under every trust configuration of the SP (metadata, pinned certificate, fingerprint); " +
+	Rule: "cases: (resign) a maximal valid Response with every optional element/attribute, any subset of its parts removed (every subset of size <= 2 enumerated), then validly re-signed with the trusted IdP key in each layout (Response / Assertion / both / ArtifactResponse), optionally encrypted to the SP, through ParseXMLResponse / ParseResponse(POST) / ParseXMLArtifactResponse, followed by 0-3 edits of the parts of the ds:Signature elements after signing (remove / empty / blank / duplicate / replace text; every part x every mode enumerated) under every trust configuration of the SP (metadata, pinned certificate, fingerprint) and every kind of key material it may hold (RSA, none, key without certificate, ECDSA); " +
 		"(encplain) degenerate and random plaintexts inside a well-formed EncryptedAssertion addressed to the SP; (bytes) random, dictionary-built and fixture-spliced bytes under raw / base64 / deflate / broken framings incl. deflate bombs of 1..64 MiB (raw DEFLATE and the zlib / gzip containers) through every consuming API " +
 		"(response, artifact response, logout form/redirect/request, AuthnRequest GET/POST + Validate, samlsp.ParseMetadata, xml.Unmarshal of EntityDescriptor/EntitiesDescriptor, PUT /services/{id} of samlidp); (fixture) repository fixtures under structure-aware mutation (delete / duplicate / swap / wrap / attribute edits / depth <= 500 / width <= 5000 / root rename); " +
 		"(artifact) generated sequences of resolver behaviours (dial error, non-200, truncated body, SOAP fault, wrong envelope, garbage ...); (idp) a maximal AuthnRequest and maximal registered SP metadata with parts removed through ServeSSO GET/POST and ServeIDPInitiated; (metadata) maximal IdP/SP metadata with parts removed. " +
@@ -1557,6 +1612,7 @@ var prop = &pbt.Prop[Case]{
 	Enums: []pbt.Enum[Case]{
 		{Name: "optional-part-removal-resigned", Each: enumRemovals},
 		{Name: "signature-surgery-after-signing", Each: enumSigSurgery},
+		{Name: "sp-key-material", Each: enumSPKeys},
 		{Name: "idp-request-and-metadata-part-removal", Each: enumIDP},
 		{Name: "metadata-part-removal", Each: enumMetadata},
 		{Name: "degenerate-documents-faults-bombs-fixtures", Each: enumDegenerate},
